@@ -52,14 +52,14 @@ func findConflictSites(p *core.Program) []conflictSite {
 					return true
 				}
 				o := info.Uses[id]
-				if o == nil || o.Pkg() == nil || o.Pkg().Path() != core.PkgErrors || !want[o.Name()] {
+				if o == nil || o.Pkg() == nil || o.Pkg().Path() != core.PkgErrors || !want[core.RefName(o)] {
 					return true
 				}
 				var fl *ast.FuncLit
 				if len(stack) > 0 {
 					fl = stack[len(stack)-1]
 				}
-				out = append(out, conflictSite{fd: fd, node: m, name: o.Name(), inFL: fl})
+				out = append(out, conflictSite{fd: fd, node: m, name: core.RefName(o), inFL: fl})
 				return true
 			})
 		}
@@ -311,7 +311,7 @@ func ConflictDetectors(p *core.Program, r *core.Report, rule string) {
 			n++
 			ok, why := propagates(p, fd, call)
 			callee := core.Callee(info, call)
-			r.Check(ok, rule+"-prop", fmt.Sprintf("%s: the error of %s (call #%d) is propagated", fd.Key(), callee.Name(), ci+1), p.Pos(call.Pos()), why, "a conflict error can be lost here: "+why)
+			r.Check(ok, rule+"-prop", fmt.Sprintf("%s: the error of %s (call #%d) is propagated", fd.Key(), core.RefName(callee), ci+1), p.Pos(call.Pos()), why, "a conflict error can be lost here: "+why)
 		}
 	}
 	r.Floor(rule+"-prop", 15)
@@ -570,7 +570,7 @@ func ConflictPositionIndependence(p *core.Program, r *core.Report, rule string) 
 				return 0
 			}
 			if c, ok := n.(*ast.CallExpr); ok {
-				if fn := core.Callee(info, c); fn != nil && fn.Name() == "checkConsistentLabelsForPodsOfSameOwner" {
+				if fn := core.Callee(info, c); fn != nil && core.RefName(fn) == "checkConsistentLabelsForPodsOfSameOwner" {
 					okCall = true
 					return 1
 				}
@@ -609,7 +609,7 @@ func ConflictPositionIndependence(p *core.Program, r *core.Report, rule string) 
 					return true
 				}
 				if ix, ok := ast.Unparen(as.Rhs[0]).(*ast.IndexExpr); ok {
-					if f := core.FieldOf(info, ix.X); f != nil && f.Name() == "Labels" {
+					if f := core.FieldOf(info, ix.X); f != nil && core.RefName(f) == "Labels" {
 						if core.ExprStr(ix.Index) == core.ExprStr(rs.Key) {
 							has = true
 						}
